@@ -306,7 +306,11 @@ def check_case(case, props):
              'nontrivial_sigs': [], 'prog_sigs': [], 'probes': {}}
 
     def viol(oracle, detail, tags=(), exc=None):
-        viols.append({'prop': 'C11', 'oracle': oracle, 'sig': 'C11|%s|%s|%s' % (oracle, cls if 'cone' in oracle else '', exc or ''),
+        # the signature separates engines and the incumbent case, so that a known finding for one engine can never
+        # absorb a new violation of another
+        key = '+'.join(t for t in sorted(tags) if t in ('scipy', 'ecos', 'ortools', 'gurobi', 'incumbent_at_nonoptimal_status',
+                                                        'genuine_infeasible', 'genuine_unbounded', 'fault_raise', 'fault_none_solver'))
+        viols.append({'prop': 'C11', 'oracle': oracle, 'sig': 'C11|%s|%s|%s' % (oracle, key, exc or ''),
                       'detail': detail, 'tags': sorted(tags), 'exc': exc or ''})
 
     def inconc(k):
